@@ -156,6 +156,77 @@ def run():
     expect("HalfLock.tla with the reader's fetch_add downgraded to Acquire: use-after-free",
            r.violation == "NoUseAfterFree")
 
+    # ---- runtime adapters: recorded histories against the monitor of AsyncOps.tla -------------------
+    import subprocess
+    import p_async
+    p_async.build()
+    af = os.path.join(WORK, "self_async.ndjson")
+    with open(af, "w") as f:
+        subprocess.run([p_async.ASYNC_BIN, "--scripts", "P,R10,T,P,P,C,T,P", "--adapters", "tokio,mio10"],
+                       stdout=f, check=True)
+    ac = {"Sigs": {1, 10, 12}, "Watched0": {10, 12}, "MaxOps": 0, "CbArms": True, "TryFirst": True}
+    tv = validate_trace("TraceAsync.tla", af, "self_async", constants=ac, invariants=["V_C09", "V_C10", "V_C11"])
+    expect("adapter histories (tokio, mio) accepted by the monitor of AsyncOps.tla", tv.accepted)
+
+    def no_wake(recs):
+        for r in recs:
+            if r["e"] == "op" and r["op"] == "T" and r["n"] > 0:
+                r["n"] = 0
+                break
+        return recs
+    _mutate(af, af + ".nowake", no_wake)
+    tv = validate_trace("TraceAsync.tla", af + ".nowake", "self_async2", constants=ac, invariants=["V_C09"])
+    expect("... with the waker's wake-up after a delivery removed: V_C09 violated", tv.violation == "V_C09")
+
+    def pending_after_close(recs):
+        seen_c = False
+        for r in recs:
+            if r["e"] == "op" and r["op"] == "C":
+                seen_c = True
+            if seen_c and r["e"] == "op" and r["op"] == "P" and r["res"] == "none":
+                r["res"] = "pending"
+                break
+        return recs
+    _mutate(af, af + ".pend", pending_after_close)
+    tv = validate_trace("TraceAsync.tla", af + ".pend", "self_async3", constants=ac, invariants=["V_C11"])
+    expect("... with the poll after close() answering Pending: V_C11 violated", tv.violation == "V_C11")
+    # ---- instruction-boundary deliveries ----------------------------------------------------------------
+    sf = os.path.join(WORK, "self_step.ndjson")
+    with open(sf, "w") as f:
+        f.write(json.dumps({"e": "step", "op": "unregister", "stride": 1, "status": "exited:0",
+                            "r": {"nsteps": 3772, "forks": 3772, "hung": 1, "died": 0, "tokens": [],
+                                  "steps": [["ok", 3771, 0]]}}) + "\n")
+    tv = validate_trace("TraceStep.tla", sf, "self_step", invariants=["V_C03"])
+    expect("a step record with one delivery that never returned: V_C03 violated", tv.violation == "V_C03")
+    # ---- Delivery.tla and the inductive invariant -------------------------------------------------------
+    script = ('@[t \\in {1,2} |-> IF t = 1 THEN <<<<"add",12>>, <<"drop">>>> ELSE <<<<"add",12>>, <<"drop">>>>]')
+    r = run_tlc("Delivery.tla", cfg_text(dict(Threads={1, 2}, Script=script, Sigs={12}, AddAtomic=False,
+                                              LastOwner="arc"), ["NoDoubleRegistration"]),
+                "self_delivery", workers=2, timeout=120)
+    expect("Delivery.tla with the id table's lock released between look-up and recording: double registration",
+           r.violation == "NoDoubleRegistration")
+    import shutil
+    if shutil.which("apalache-mc"):
+        import inductive
+
+        class _C:
+            pid = "selftest"
+            extra = {}
+            notes = []
+
+            def note(self, m):
+                self.notes.append(m)
+        cc = _C()
+        inductive.halflock_induction(cc, dict(ReadOrder="ptr_then_count", Barrier="both", Sticky=True, Publish="swap"))
+        expect("HalfLockSC.tla with the pointer loaded before the count: the induction fails (Apalache)",
+               any("not inductive" in n for n in cc.notes))
+        cc2 = _C()
+        cc2.notes = []
+        cc2.extra = {}
+        inductive.halflock_induction(cc2, dict(ReadOrder="count_then_ptr", Barrier="both", Sticky=True, Publish="swap"))
+        expect("HalfLockSC.tla as the code is: IndInv is inductive and its hypothesis satisfiable (Apalache)",
+               cc2.extra.get("inductive_invariant", [{}])[-1].get("holds") is True)
+
     bad = [n for n, ok in results if not ok]
     log("selftest: %d/%d demonstrations behaved as required" % (len(results) - len(bad), len(results)))
     return 0 if not bad else 2
